@@ -1369,7 +1369,7 @@ def check_none(run: Run, prog: Program) -> None:
                 run.check(bad is None, "C09.NONE", fn.qual, f"{x} is None ... {u(bad)[:60] if bad is not None else ''}",
                           f"`{x}` was established to be None on this path and is used afterwards: the check that "
                           "should exclude the empty case is inverted, every regular call fails", **_where(fn, p))
-    _floor(run, None, n >= 3, f"C09.NONE: only {n} None-establishing paths found")
+    _floor(run, None, n >= 1, "C09.NONE: no None-establishing path found")
 
 
 def _gap_ops(p: Path, prog: Program) -> dict[str, list[tuple[int, Any]]]:
@@ -1818,7 +1818,9 @@ def check_window_cases(run: Run, prog: Program) -> None:  # noqa: C901
                 # both bounds are indices: each is projected, then converted, and the raw index is used nowhere else
                 ok = any(projected(c, 0) for c in conv) and any(projected(c, 1) for c in conv) \
                     and all(projected(c, 0) or projected(c, 1) for c in conv) \
-                    and not raw_use(xs) and not raw_use(xe)
+                    and not raw_use(xs) and not raw_use(xe) \
+                    and all(projected(c, k) for x, k in ((xs, 0), (xe, 1)) for c in ast.walk(x)
+                            if isinstance(c, ast.Call) and method_call(c, "self", "get_timestamp"))
             else:
                 ok = ks is True and ke is True and not conv
             run.check(ok, "C09.VALID", wn.qual, "index bounds -> slice(start, end).indices(count_covered()) -> get_timestamp",
@@ -2119,7 +2121,7 @@ def check(run: Run, prog: Program, tier: str) -> str:
     run.floor("C09.STORE", 4)
     run.floor("C09.FETCH", 3)
     run.floor("C09.COUNT", 10)
-    run.floor("C09.NONE", 3)
+    run.floor("C09.NONE", 1)
     run.floor("C09.NORM", 12)
     run.floor("C09.VALID", 10)
     run.floor("C09.GAP", 6)
